@@ -247,11 +247,22 @@ def append_bond_unit(variant):
         g = M.Ghost(m)
         before = M.snapshot(m)
         atoms = before["atoms"]
-        foreign = V.choose([False, True, "formerly-own"], "foreign-endpoint")
+        foreign = V.choose([False, True, "formerly-own", "own-but-parent-elsewhere"], "foreign-endpoint")
         # "formerly-own": an atom that was deleted from this molecule earlier in the history (del_atom leaves its parent pointer alone)
-        a2 = M.mk_atom(V, "foreign", parent=(m if foreign == "formerly-own" else None)) if foreign else atoms[2]
+        # "own-but-parent-elsewhere": the molecule's own atoms were also used to build another object with copy_atoms=False, which
+        #   re-pointed their parent references; they are still atoms of this molecule and must not be adopted a second time
+        if foreign == "own-but-parent-elsewhere":
+            other = M.mk_mol(V, "Molecule", 0, (), name="other")
+            for a_ in atoms:
+                a_.fields["_parent"] = Obj(I.WeakrefCls, {"ref": other}, tag="weakref")
+            foreign = False
+            a2 = atoms[2]
+            elsewhere = True
+        else:
+            elsewhere = False
+            a2 = M.mk_atom(V, "foreign", parent=(m if foreign == "formerly-own" else None)) if foreign else atoms[2]
         b1 = M.mk_bond(V, "nb1", atoms[1], a2)
-        V.witness(lambda ev: {"op": variant, "kind": kind, "foreign": bool(foreign), "formerly_own": foreign == "formerly-own",
+        V.witness(lambda ev: {"op": variant, "kind": kind, "foreign": bool(foreign), "formerly_own": foreign == "formerly-own", "parent_elsewhere": elsewhere,
                               "signature": f"{variant}/{'foreign' if foreign else 'own'}"})
         V.cover()
         if variant == "append_bond":
@@ -281,7 +292,8 @@ def append_bond_unit(variant):
                     q = m.fields.get("_atomic_charges")
                     if q is not None and q.data is not None and len(q.data) == 4 and q.data[3] is not None:
                         g.charge[id(a2)] = q.data[3]
-            M.ensure_wf(V, m, g, "post/wf")
+            # (parent pointers that were re-pointed elsewhere before the call are not this operation's to repair)
+            M.ensure_wf(V, m, g, "post/wf", skip=("reports-this-parent", "parent") if elsewhere else ())
     return body
 
 
